@@ -401,6 +401,11 @@ Definition blame_leaf (e : expr) : nid * cls :=
   | _ => (head_nid e, TypeMismatch)
   end.
 
+Definition only_subprograms (bs : list binding) : bool :=
+  match bs with
+  | [] => false
+  | _ => forallb (fun b => match b_kind b with BFun _ _ | BProc _ => true | _ => false end) bs
+  end.
 Definition find_field (fs : list (ident * sty)) (f : occ) : option (ident * sty) :=
   find (fun x => fst x =? o_id f) (if o_id f =? id_undeclared then [] else fs).
 
@@ -565,6 +570,13 @@ with blame (G : env) (t : sty) (e : expr) {struct e} : nid * cls :=
               end
           end
       | _, _ => blame_leaf e
+      end
+  (* a name that denotes only subprograms, used without an actual list: a call that matches no overload *)
+  | ENam (NId o) => if only_subprograms (vis G (o_id o)) then (o_nid o, NoOverload) else blame_leaf e
+  | ENam (NSel l p o) =>
+      match sel_item G l p o with
+      | Ok bs => if only_subprograms bs then (o_nid o, NoOverload) else blame_leaf e
+      | Bad _ _ => blame_leaf e
       end
   | _ => blame_leaf e
   end
